@@ -199,6 +199,18 @@ def run_impl(case):
     for i, t in enumerate(T.reshape(-1)[: len(cflat)]):
         if not same(s.cm(float(t)).matrix, cflat[i]):
             prob.append(("elementwise", f"cm: block {i} differs from the scalar call"))
+    # rates that are undefined at some thresholds and defined at others within ONE vectorised call (a threshold beyond all
+    # scores in the middle of the array): every element equals the scalar call
+    if len(pos_in) + len(neg_in):
+        allv_ = np.concatenate([pos_in, neg_in]).astype(float)
+        T_mix = np.concatenate([[allv_.max() + 1.0], T.reshape(-1)[:3], [allv_.min() - 1.0], [float(np.median(allv_))], [allv_.max() + 2.0], T.reshape(-1)[:2]])
+        cm_mix = s.cm(T_mix)
+        for nm_ in ("ppv", "npv", "fdr", "for_", "tpr", "tnr", "fpr", "fnr", "topr", "accuracy"):
+            vec_ = np.asarray(getattr(cm_mix, nm_)(), dtype=float)
+            one_ = np.array([float(getattr(s.cm(float(t_)), nm_)()) for t_ in T_mix])
+            if vec_.shape != one_.shape or not same(vec_, one_):
+                prob.append(("elementwise", f"cm(T).{nm_}() for T = {T_mix.tolist()}: {vec_.tolist()}, threshold by threshold: {one_.tolist()}"))
+                break
     pw = results["pw:pw"]
     if pw.shape != tuple(case["pshape"]) + shp + (2, 2):
         prob.append(("shape", f"pointwise_cm: shape {pw.shape}, expected {tuple(case['pshape']) + shp + (2, 2)}"))
